@@ -273,6 +273,25 @@ def run(ctx):
                          for n_, cs in case['cons'].items() if cs)
         if i % 6 == 0 or repairable:
             null_constraint_independence(ctx, rng, case, prefer=('min', 'max') if repairable else ())
+    # ---- flag columns: an integer column (0/1 and other values, several widths) whose field is declared 'bool', with
+    # the default repair: the verdicts are those of the repaired (boolean) column (checked inside
+    # null_constraint_independence), whatever else is constrained on the field
+    for it in range(30 if ctx.quick else 600):
+        variant = rng.choice(['int64', 'int64', 'int32', 'int8'])
+        cells = [rng.choice([0, 1]) for _ in range(rng.randint(1, 6))] if rng.random() < 0.7 else \
+            [rng.choice([0, 1, 3, -2]) for _ in range(rng.randint(1, 6))]
+        col = C.normalise_column({'type': 'int', 'cells': cells, 'variant': variant})
+        cs = {'type': {'value': 'bool'}}
+        if rng.random() < 0.4:
+            cs['max_nulls'] = {'value': rng.choice([0, 1])}
+        if rng.random() < 0.3:
+            cs['no_duplicates'] = {'value': True}
+        other = C.normalise_column({'type': 'real', 'cells': [rng.choice([0.5, 2.0, None]) for _ in cells], 'variant': 'float64'})
+        case = dict(cols={'flag': col, 'other': other}, cons={'flag': cs, 'other': {'max': {'value': 2.0}}},
+                    eps=rng.choice([0, None, 0.01]), strict=rng.random() < 0.5, report='all')
+        ctx.count(('flag-column', repr(describe(case))), True)
+        ctx.bump('flag_columns')
+        null_constraint_independence(ctx, rng, case, prefer=('min', 'max'))
     ctx.sample(describe(cases[0]))
     ctx.sample(describe(cases[1]))
     ctx.cov['rule'] = ('frames of 1-3 abstract columns (bool/int/real/string/date x dtype variants, 0-9 rows, null '
